@@ -371,6 +371,37 @@ theorem C04_table_ops_atomic :
     ∀ op ∈ Mcp.Gen.sessionTableOps, op.2.1 = 1 ∧ (op.2.2.1 = true → op.2.2.2 = true) := by
   decide
 
+/-- The sweeper (`cleanupExpiredSessions`, run once per tick) as a function of the regenerated unit: a session idle for
+    `idleNs` nanoseconds is removed iff `idleNs > expiryUnits * nsPerUnit`. -/
+def sweepRemoves (nsPerUnit expiryUnits idleNs : Nat) : Bool := decide (idleNs > expiryUnits * nsPerUnit)
+
+/-- The histories of the statement are clock-free: nothing but DELETE ends a session. That is the code's behaviour as
+    long as the sweeper leaves sessions alone, i.e. for sessions idle at most the configured number of **seconds**
+    (default 3600): with the unit the code uses today, no sweep — at whatever instant it runs — removes a session that was
+    active within the last `expirySeconds` seconds, for every configured value and every idle time. -/
+theorem C04_sweep_keeps_active (expirySeconds idleNs : Nat) (h : idleNs ≤ expirySeconds * 1000000000) :
+    sweepRemoves Mcp.Gen.sessionExpiryNsPerUnit expirySeconds idleNs = false := by
+  have hu : Mcp.Gen.sessionExpiryNsPerUnit = 1000000000 := by decide
+  simp only [sweepRemoves, hu, decide_eq_false_iff_not]
+  omega
+
+/-- … and a session idle longer than that is removed by the next sweep (the expiry exists). -/
+theorem C04_sweep_removes_expired (expirySeconds idleNs : Nat) (h : expirySeconds * 1000000000 < idleNs) :
+    sweepRemoves Mcp.Gen.sessionExpiryNsPerUnit expirySeconds idleNs = true := by
+  have hu : Mcp.Gen.sessionExpiryNsPerUnit = 1000000000 := by decide
+  simp only [sweepRemoves, hu, decide_eq_true_eq]
+  omega
+
+/-- Bad region of the family: were the configured number taken as nanoseconds (unit 1), the first sweep would remove a
+    session of the default configuration (3600) that was served one second ago — without any DELETE. -/
+theorem C04_sweep_unit_witness : sweepRemoves 1 3600 1000000000 = true := by decide
+
+/-- the sweeper's ticker period was understood (one minute today): the thorough tier's idle history waits past it. -/
+theorem C04_sweep_tick_fact : 0 < Mcp.Gen.sessionSweepTickNs ∧ Mcp.Gen.sessionSweepTickNs ≤ 60000000000 := by decide
+
+-- non-vacuity: the default configuration, a session idle for 59 minutes
+example : sweepRemoves Mcp.Gen.sessionExpiryNsPerUnit 3600 (59 * 60 * 1000000000) = false := by decide
+
 open Mcp.Ids in
 /-- Hex rendering is injective (two different 128-bit draws give two different ids), has two characters per byte
     and uses only `0-9a-f` (visible ASCII). -/
